@@ -47,8 +47,16 @@ def make_mass(rnd, M):
     a = numpy.array([[dy(rnd, -1, 1) for _ in range(d)] for _ in range(d)])
     mat = a @ a.T + numpy.diag([pos(rnd) for _ in range(d)])
     if kind == "full":
-        enc = rnd.choice(["float64", "list"])
-        return kind, M.Full(mat.copy() if enc == "float64" else mat.tolist()), d, f"Full({mat.tolist()}, given as {enc})"
+        enc = rnd.choice(["float64", "list", "int", "float32", "int_list", "fortran"])
+        if "int" in enc:
+            # a whole-number, symmetric positive definite matrix: B B^T + diagonal with small integer entries
+            b = numpy.array([[rnd.randint(-2, 2) for _ in range(d)] for _ in range(d)])
+            mat = (b @ b.T + numpy.diag([rnd.randint(1, 4) for _ in range(d)])).astype(float)
+        arg = {"float64": mat.copy(), "list": mat.tolist(), "int": mat.astype(int), "float32": mat.astype(numpy.float32),
+               "int_list": [[int(v) for v in row] for row in mat.tolist()], "fortran": numpy.asfortranarray(mat.copy())}[enc]
+        if enc == "float32":
+            mat = mat.astype(numpy.float32).astype(float)
+        return kind, M.Full(arg), d, f"Full({mat.tolist()}, given as {enc})"
     minv = numpy.linalg.inv(mat)
     minv = (minv + minv.T) / 2
     return kind, M.BFGS(d, numpy.zeros((d, 1)), numpy.ones((d, 1)), Minv=minv.copy()), d, f"BFGS(Minv={minv.tolist()})"
@@ -63,7 +71,7 @@ def static_case(rnd, M):
         mass.rng = UnitRng(k)
         cols.append(numpy.asarray(mass.generate_momentum(), dtype=float).reshape(d))
     A = numpy.array(cols).T
-    tol = 1e-5 if "float32" in desc else 1e-9     # float32 input: working precision of the given data
+    tol = (1e-4 if "Full" in desc else 1e-5) if "float32" in desc else 1e-9     # float32 input: working precision of the given data
     if not numpy.allclose(A @ A.T, matrix, rtol=tol, atol=1e-12):
         out.append((f"factor-{kind}", f"{desc}: generate_momentum() = A z with A A^T = {(A @ A.T).tolist()} but the reported matrix is {matrix.tolist()}"))
     p = [dy(rnd, -3, 3) for _ in range(d)]
@@ -83,8 +91,9 @@ def static_case(rnd, M):
             goals += [goal(f"nth {i} (gradient (kin_diag {ql(dv)}) {ql(p)}) 0", kg[i], tol) for i in range(d)]
         elif kind == "full":
             P = numpy.linalg.inv(matrix)
-            goals.append(goal(f"misfit (kin_full {qm(P.tolist())}) {ql(p)}", kin, 1e-8))
-            goals += [goal(f"nth {i} (gradient (kin_full {qm(P.tolist())}) {ql(p)}) 0", kg[i], 1e-8) for i in range(d)]
+            ftol = 1e-4 if "float32" in desc else 1e-8       # float32 input: the factorisation runs in single precision
+            goals.append(goal(f"misfit (kin_full {qm(P.tolist())}) {ql(p)}", kin, ftol))
+            goals += [goal(f"nth {i} (gradient (kin_full {qm(P.tolist())}) {ql(p)}) 0", kg[i], ftol) for i in range(d)]
     return kind, desc, out, goals
 
 
